@@ -153,6 +153,9 @@ func (p Profile) key(r *rand.Rand) string {
 		if s == "" && p.NoEmptyKey {
 			return "e"
 		}
+		if s == "<<" {
+			return "lt" // `<<` as a key is a merge key (property C13), not plain data
+		}
 		return s
 	}
 	return p.Keys[r.IntN(len(p.Keys))]
